@@ -1,12 +1,248 @@
-// Package c15 decides C15 (see /verif/DESIGN.md §7).
+// Package c15 decides C15: the reference key-value execution layer returns a state root that
+// depends only on the ordered transactions executed so far (see /verif/DESIGN.md §7).
+//
+// Two real KVExecutor instances (each with its own Badger directory) are fed the same generated
+// blocks while everything else - SetFinal timing, mempool traffic, repeated InitChain, restarts,
+// re-execution, whether a refused block is offered at all - is chosen independently per instance.
+// An independent reference model (model.go) predicts every returned root.
+//
+// Generator regions (decided at generation time, DESIGN §4):
+//
+//   - clean:    no SetFinal call, no transaction on /finalizedHeight. Every failure is a VIOLATION.
+//   - setfinal: the two instances finalize with different policies (each | lag2 | sparse | late |
+//     never | early); no transaction on /finalizedHeight. This is the trigger region of
+//     C15-setfinal-in-root: a root (or a pair of roots) that is wrong *exactly* by the entry
+//     "/finalizedHeight:<last SetFinal argument>;" on an instance that has called SetFinal is
+//     reported through r.Finding; any other difference is a VIOLATION. The oracle itself is the
+//     property as stated (root independent of SetFinal), so the region is silent once SetFinal no
+//     longer leaks into the root.
+//   - fhtx:     blocks containing a transaction whose key normalises to /finalizedHeight
+//     ("finalizedHeight", "/finalizedHeight", "x/../finalizedHeight", ...), with or without SetFinal
+//     calls. The statement does not say whether that key is a legal application key. The run
+//     observes once, on a scratch instance, whether the build refuses such a transaction (as it
+//     refuses the two genesis keys) or accepts it, and then holds every history to that choice:
+//     refused  => such a block is judged exactly like a malformed one (error, nothing changes);
+//     accepted => the key is an ordinary key of the model (its value is what the last transaction
+//     wrote). With "accepted", a SetFinal that overwrites the value is the same defect again and is
+//     reported as the finding when the root is off exactly by that entry.
 package c15
 
-import "verifharness/vk"
+import (
+	"context"
+	"fmt"
+	"os"
+	"path/filepath"
+	"strings"
+	"sync"
+	"sync/atomic"
+
+	kv "github.com/evstack/ev-node/apps/testapp/kv"
+
+	"verifharness/vk"
+	"verifharness/world"
+)
 
 // Level is the verification level claimed for this property.
 const Level = "exploration"
 
+var shapedReported atomic.Int64
+
+// FindingID is the finding whose trigger region is "SetFinal was called before a root was observed".
+const FindingID = "C15-setfinal-in-root"
+
+// probeFHReserved observes once how this build treats a transaction that writes the key SetFinal
+// uses: refused like the two genesis keys (true) or accepted as an ordinary key (false). The
+// property does not say which; it only requires that the choice is made consistently, which is
+// what every history of region "fhtx" then checks.
+func probeFHReserved(base string) (bool, error) {
+	dir := filepath.Join(base, "probe")
+	ex, err := kv.NewKVExecutor(dir, "p")
+	if err != nil {
+		return false, err
+	}
+	defer func() { _ = closeExec(ex) }()
+	ctx := context.Background()
+	if _, _, err := ex.InitChain(ctx, genesisTime, 1, chainID); err != nil {
+		return false, err
+	}
+	_, _, err = ex.ExecuteTxs(ctx, [][]byte{[]byte("finalizedHeight=7")}, 1, blockTime(0), nil)
+	return err != nil, nil
+}
+
+func rootsOf(ops []Op, obs []Obs) []string {
+	out := []string{}
+	for i, o := range obs {
+		if i >= len(ops) {
+			break
+		}
+		k := ops[i].K
+		switch k {
+		case "exec", "reexec", "observe", "init":
+			if o.Err != "" {
+				out = append(out, fmt.Sprintf("%d %s -> error: %s", i, opsString(ops[i:i+1]), o.Err))
+			} else {
+				out = append(out, fmt.Sprintf("%d %s -> %q", i, opsString(ops[i:i+1]), string(o.Root)))
+			}
+		case "setfinal":
+			out = append(out, fmt.Sprintf("%d %s -> err=%q", i, opsString(ops[i:i+1]), o.Err))
+		case "gettxs":
+			out = append(out, fmt.Sprintf("%d gettxs -> %q", i, o.Txs))
+		default:
+			out = append(out, fmt.Sprintf("%d %s", i, opsString(ops[i:i+1])))
+		}
+	}
+	return out
+}
+
+func runHistory(r *vk.Run, base string, h History, fhReserved, canClose bool) {
+	dir := filepath.Join(base, fmt.Sprintf("h%d", h.ID))
+	if err := os.MkdirAll(dir, 0o755); err != nil {
+		r.Inconclusive("mkdir: " + err.Error())
+		return
+	}
+	defer os.RemoveAll(dir)
+	ctx := context.Background()
+	var obsA, obsB []Obs
+	var errA, errB error
+	child := h.Child || !canClose
+	if child {
+		var sa, sb, ra, rb int
+		obsA, sa, ra, errA = runInChildren(dir, "a", h.Blocks, h.OpsA)
+		obsB, sb, rb, errB = runInChildren(dir, "b", h.Blocks, h.OpsB)
+		r.Count("child_process_segments", int64(sa+sb))
+		if ra+rb > 0 {
+			r.Count("first_open_after_unclean_exit_failed_on_zero_length_wal", int64(ra+rb))
+		}
+		r.Count("histories_with_restart_by_process_exit", 1)
+	} else {
+		obsA, errA = runInProcess(ctx, dir, "a", h.Blocks, h.OpsA)
+		obsB, errB = runInProcess(ctx, dir, "b", h.Blocks, h.OpsB)
+	}
+	witness := func() any {
+		return map[string]any{"history": h, "finalizedHeight_tx_refused": fhReserved,
+			"observed_a": rootsOf(h.OpsA, obsA), "observed_b": rootsOf(h.OpsB, obsB)}
+	}
+	for _, e := range []error{errA, errB} {
+		if e == nil {
+			continue
+		}
+		if e == errWatchdog {
+			r.Inconclusive(fmt.Sprintf("history %d: child watchdog", h.ID))
+			return
+		}
+		if strings.Contains(e.Error(), "Cannot acquire directory lock") {
+			// flock contention between processes of the harness itself, not executor behaviour
+			r.Inconclusive(fmt.Sprintf("history %d: %v", h.ID, e))
+			return
+		}
+		// a database that cannot be (re)opened or a child that died: the history cannot continue
+		r.Violation("reopen", fmt.Sprintf("history %d: %v", h.ID, e), witness())
+		return
+	}
+	probs := judgeHistory(h, obsA, obsB, fhReserved, r.Hit)
+	var other, shaped []problem
+	for _, p := range probs {
+		if p.finding && h.Region != "clean" {
+			shaped = append(shaped, p)
+		} else {
+			other = append(other, p)
+		}
+	}
+	if len(other) > 0 {
+		ds := make([]string, 0, len(other))
+		for _, p := range other {
+			ds = append(ds, p.detail)
+		}
+		r.Violation(other[0].clause, strings.Join(ds, " ;; "), witness())
+	} else if len(shaped) > 0 {
+		r.Count("histories_failing_as_"+FindingID, 1)
+		if !r.IsKnown(FindingID) && shapedReported.Add(1) > 3 {
+			// unlisted, so each report is a VIOLATION with its own replay file: three are enough
+			shaped = nil
+		}
+	}
+	if len(other) == 0 && len(shaped) > 0 {
+		// prefer the statement's own clause (two instances, same blocks, different roots) as headline
+		for i, p := range shaped {
+			if p.clause == "instances-equal" {
+				shaped[0], shaped[i] = shaped[i], shaped[0]
+				break
+			}
+		}
+		r.Finding(FindingID, shaped[0].clause, fmt.Sprintf("history %d (%d blocks, SetFinal policy %s/%s): %s (%d observations of this shape in the history)", h.ID, len(h.Blocks), h.PolA, h.PolB, shaped[0].detail, len(shaped)), witness())
+	}
+	nops := map[string]int64{}
+	for _, ops := range [][]Op{h.OpsA, h.OpsB} {
+		for _, o := range ops {
+			nops[o.K]++
+		}
+	}
+	for k, n := range nops {
+		r.Count("calls_"+k, n)
+	}
+	r.Count("blocks", int64(len(h.Blocks)))
+	r.Count("histories_region_"+h.Region, 1)
+	r.Eval(h.abstract(), h.nontrivial(), h.sample())
+}
+
 // Run is the check entry point.
 func Run(r *vk.Run) {
-	r.Rule = "not implemented yet"
+	world.Silence()
+	r.Rule = "seeded histories of 5-40 blocks (1-5 'key=value' txs over a 15-key alphabet with path aliases and reserved look-alikes; 18% refused blocks: no '=', empty key, genesis key, always behind state-changing valid txs) executed on two real KVExecutor instances with independently generated call sequences (InitChain placement/repeats, SetFinal policy each|lag2|sparse|late|never|early, InjectTx/GetTxs, reopen, re-execution, refused block offered or not, empty-block observations); regions: clean (no SetFinal, no tx on /finalizedHeight), setfinal (different SetFinal timing), fhtx (txs writing /finalizedHeight); non-trivial = >=1 refused block, reopen or SetFinal; distinct by region + block kinds + call-kind sequence of both instances"
+	r.Assume("roots are compared with an independent model: sorted 'key:value;' concatenation over path-normalised keys, the two genesis keys reserved")
+	r.Assume("restart of this type = new KVExecutor on the same directory; in-process after closing the private Badger handle by reflection (KVExecutor has no Close), and for a sample of histories by successive child processes that exit without closing")
+	r.Assume("process exit, not power loss: Badger's unsynced writes live in the page cache")
+	base := world.TempDir(vk.Root(), "C15-*")
+	defer os.RemoveAll(base)
+
+	fhReserved, err := probeFHReserved(base)
+	if err != nil {
+		r.Violation("startup", "cannot open a fresh KVExecutor: "+err.Error(), map[string]any{"dir": base})
+		return
+	}
+	r.Set("finalizedHeight_tx_treatment_observed", map[bool]string{true: "refused as reserved key", false: "accepted as ordinary key"}[fhReserved])
+	canClose := true
+	if ex, err := kv.NewKVExecutor(base, "closeprobe"); err == nil {
+		if closeExec(ex) != nil {
+			canClose = false
+		}
+	}
+	r.Set("in_process_reopen", canClose)
+
+	g := &gen{rng: r.Rand("histories")}
+	n := r.N(300, 10000)
+	hs := make([]History, n)
+	for i := range hs {
+		hs[i] = g.history(i, r.Quick())
+	}
+	min := int64(n / 3)
+	r.Require("model-root", int64(n)*3)
+	r.Require("instances-equal", int64(n)*3)
+	r.Require("equal-despite-setfinal-timing", min)
+	r.Require("equal-despite-mempool", min)
+	r.Require("equal-despite-restarts", min/3)
+	r.Require("malformed-refused", min)
+	r.Require("refused-block-changes-nothing", min)
+	r.Require("reexec-same-root", min/3)
+	r.Require("init-idempotent", int64(n))
+	r.Require("reopen-keeps-root", min/3)
+	r.Require("root-unaffected-by-setfinal", min)
+	r.Require("root-unaffected-by-mempool", min)
+
+	var wg sync.WaitGroup
+	ch := make(chan History)
+	for w := 0; w < 16; w++ {
+		wg.Add(1)
+		go func() {
+			defer wg.Done()
+			for h := range ch {
+				runHistory(r, base, h, fhReserved, canClose)
+			}
+		}()
+	}
+	for _, h := range hs {
+		ch <- h
+	}
+	close(ch)
+	wg.Wait()
 }
